@@ -5,6 +5,7 @@ pub mod c04;
 pub mod c05;
 pub mod c07;
 pub mod c09;
+pub mod c11;
 pub mod c12;
 pub mod c13;
 pub mod c20;
@@ -24,6 +25,7 @@ pub fn dispatch(args: &Args, rep: &mut Report) -> bool {
         "serve" => tcp::serve(args),
         "c07" => c07::run(args, rep),
         "c09" => c09::run(args, rep),
+        "c11" => c11::run(args, rep),
         "c12" => c12::run(args, rep),
         "c13" => c13::run(args, rep),
         "c20" => c20::run(args, rep),
